@@ -266,4 +266,41 @@ def copy_oracle(inp):
     R.cover("copy:" + inp["kind"])
 
 
+def gen_both_axes(tier, seed):
+    names = ["s_abs", "s_rel", "s_rel_c", "m_cov_rel", "m_cor_rel"]
+    for a in names:
+        for b in names:
+            for order in ("x-first", "y-first"):
+                for change in ("data", "x", "y"):
+                    yield {"x_source": a, "y_source": b, "order": order, "change": change}
+
+
+@R.oracle("xy_sources_follow_their_own_axis", gen_both_axes, obligation="")
+def both_axes(inp):
+    """an xy container with sources on BOTH axes: after any value change each axis total is the sum of that axis' sources at that axis' current values"""
+    c = XYContainer([1.0, 2.0, 3.0], [2.0, -4.0, 5.0])
+
+    def add(axis, nm):
+        sp = SRC[nm]
+        if sp["kind"] == "simple":
+            c.add_error(axis, sp["err"], name=axis + nm, correlation=sp["rho"], relative=sp["rel"])
+        else:
+            c.add_matrix_error(axis, sp["mat"], sp["mtype"], name=axis + nm, relative=sp["rel"], **({"err_val": sp["err"]} if "err" in sp else {}))
+    for axis in (("x", "y") if inp["order"] == "x-first" else ("y", "x")):
+        add(axis, inp[axis + "_source"])
+    _ = c.x_cov_mat, c.y_cov_mat                       # caches filled before the change
+    nx, ny = np.array([1.5, 2.5, 4.0]), np.array([3.0, -1.0, 7.0])
+    if inp["change"] == "data":
+        c.data = [list(nx), list(ny)]
+    elif inp["change"] == "x":
+        c.x = nx; ny = np.array([2.0, -4.0, 5.0])
+    else:
+        c.y = ny; nx = np.array([1.0, 2.0, 3.0])
+    for axis, vals in (("x", nx), ("y", ny)):
+        got, exp = np.asarray(getattr(c, axis + "_cov_mat")), spec_cov(SRC[inp[axis + "_source"]], vals)
+        if not np.allclose(got, exp, rtol=1e-10, atol=1e-14):
+            return {"got": got, "expected": exp, "witness_class": f"xy-both-axes:{axis}-total-after-{inp['change']}-assignment"}
+    R.cover("both-axes:" + inp["change"])
+
+
 sys.exit(R.main())
